@@ -558,3 +558,212 @@ def locals_from_attrs(unit, attrs, recv='self'):
                     and vv.attr in attrs and vv.attr not in out:
                 out[vv.attr] = tt.id
     return out
+
+
+def values_on(cfg, at, name, t, edge, entry_only=False):
+    """values (ast.expr) the local ``name`` can hold at the entry of node ``at`` when control
+    left test node ``t`` on ``edge`` ('true'/'false'): definitions before the test that survive
+    that edge, and definitions made after taking it.  entry_only: ``at`` is a loop header and
+    only the values on entering the loop are wanted (definitions inside the loop are skipped)"""
+    nonexc = lambda lab: lab != 'exc'
+    on = lambda lab: lab == edge
+    defs = cfg.reaching_defs(at, name)
+    def_nodes = {n for n in cfg.nodes if any(nm == name for nm, _ in cfg.defs_at(n))}
+    out = []
+    after = cfg.reachable(t, labels=nonexc, start_labels=on)
+    for dn, v in defs:
+        if entry_only and at in dn.loop_stack:
+            continue
+        others = def_nodes - {dn}
+        if dn in after and not cfg.dominates(dn, t):
+            ok = cfg.find_path(t, {dn}, labels=nonexc, start_labels=on) is not None and \
+                (dn is at or cfg.find_path(dn, {at}, avoid=others, labels=nonexc) is not None)
+        else:
+            # defined before the test: must reach the test, and survive from there on this edge
+            ok = (dn is cfg.entry or cfg.find_path(dn, {t}, avoid=others, labels=nonexc) is not None) and \
+                cfg.find_path(t, {at}, avoid=others, labels=nonexc, start_labels=on) is not None
+        if ok:
+            out.append(v)
+    return out
+
+
+def string_pieces(e):
+    """a string-building expression as a list of ('lit', text) and ('val', expr, conv) pieces
+    (conv: 's' or 'r'), whatever the spelling: %-format with %s/%r, f-string, str.format with
+    positional fields, or concatenation.  None when the expression is something else."""
+    import re as _re
+    if isinstance(e, ast.Constant) and isinstance(e.value, str):
+        return [('lit', e.value)] if e.value else []
+    if isinstance(e, ast.BinOp) and isinstance(e.op, ast.Add):
+        a, b = string_pieces(e.left), string_pieces(e.right)
+        return None if a is None or b is None else _merge(a + b)
+    if isinstance(e, ast.JoinedStr):
+        out = []
+        for v in e.values:
+            if isinstance(v, ast.Constant):
+                out.append(('lit', v.value))
+            elif isinstance(v, ast.FormattedValue) and v.format_spec is None and v.conversion in (-1, 115, 114):
+                out.append(('val', v.value, 'r' if v.conversion == 114 else 's'))
+            else:
+                return None
+        return _merge(out)
+    if isinstance(e, ast.BinOp) and isinstance(e.op, ast.Mod) and isinstance(e.left, ast.Constant) and isinstance(e.left.value, str):
+        fmt = e.left.value
+        args = list(e.right.elts) if isinstance(e.right, ast.Tuple) else [e.right]
+        chunks = _re.split(r'(%[sr%])', fmt)
+        out = []
+        for c in chunks:
+            if c in ('%s', '%r'):
+                if not args:
+                    return None
+                out.append(('val', args.pop(0), c[1]))
+            elif c == '%%':
+                out.append(('lit', '%'))
+            elif '%' in c:
+                return None
+            elif c:
+                out.append(('lit', c))
+        return None if args else _merge(out)
+    if isinstance(e, ast.Call) and isinstance(e.func, ast.Attribute) and e.func.attr == 'format' \
+            and isinstance(e.func.value, ast.Constant) and isinstance(e.func.value.value, str) and not e.keywords:
+        fmt = e.func.value.value
+        out = []
+        auto = 0
+        for c in _re.split(r'(\{\d*(?:![rs])?\})', fmt):
+            m = _re.fullmatch(r'\{(\d*)(?:!([rs]))?\}', c)
+            if m:
+                i = int(m.group(1)) if m.group(1) else auto
+                auto += 1
+                if i >= len(e.args):
+                    return None
+                out.append(('val', e.args[i], m.group(2) or 's'))
+            elif '{' in c or '}' in c:
+                return None
+            elif c:
+                out.append(('lit', c))
+        return _merge(out)
+    return None
+
+
+def _merge(pieces):
+    out = []
+    for p in pieces:
+        if p[0] == 'lit' and out and out[-1][0] == 'lit':
+            out[-1] = ('lit', out[-1][1] + p[1])
+        else:
+            out.append(p)
+    return out
+
+
+def cond_expr(cfg, ifstmt):
+    """the condition an ``if`` decides on: its test, or -- when the test is a local holding a
+    condition computed just before (``flag = a and b; if flag:``) -- that expression"""
+    t = ifstmt.test
+    if isinstance(t, ast.Name):
+        node = cfg.node_of(ifstmt)
+        if node is not None:
+            return deref(cfg, node, t)
+    return t
+
+
+class Undecidable(Exception):
+    pass
+
+
+def decision_function(unit):
+    """For a loop-free function made of ``if`` tests, simple assignments of locals and returns:
+    (atoms, decide) where atoms are the source texts of the atomic conditions (positive form)
+    and decide(assignment) evaluates the body under a truth assignment of the atoms and
+    returns the source text of the returned expression (locals substituted).  Raises
+    Undecidable for anything else."""
+    from .program import norm
+    from .normal import _positive
+    atoms = []
+
+    def atoms_of(t):
+        if isinstance(t, ast.BoolOp):
+            for v in t.values:
+                atoms_of(v)
+            return
+        pos, _ = _positive(t)
+        if isinstance(pos, ast.BoolOp) or (isinstance(pos, ast.UnaryOp) and isinstance(pos.op, ast.Not)):
+            atoms_of(pos.operand if isinstance(pos, ast.UnaryOp) else pos)
+            return
+        k = norm(pos)
+        if k not in atoms:
+            atoms.append(k)
+    for n in unit.own_nodes():
+        if isinstance(n, (ast.If, ast.IfExp)):
+            atoms_of(n.test)
+        elif isinstance(n, (ast.For, ast.While, ast.Try, ast.With)):
+            raise Undecidable('loop / try in a decision function')
+
+    def truth(t, asg):
+        if isinstance(t, ast.BoolOp):
+            vals = [truth(v, asg) for v in t.values]
+            return all(vals) if isinstance(t.op, ast.And) else any(vals)
+        pos, neg = _positive(t)
+        if neg:
+            return not truth(pos, asg)
+        return asg[norm(pos)]
+
+    def value(e, asg, env):
+        if isinstance(e, ast.IfExp):
+            return value(e.body if truth(e.test, asg) else e.orelse, asg, env)
+        if isinstance(e, ast.Name) and e.id in env:
+            return env[e.id]
+        return norm(e)
+
+    def run(stmts, asg, env):
+        for st in stmts:
+            if isinstance(st, ast.Return):
+                return ('return', value(st.value, asg, env) if st.value is not None else 'None')
+            if isinstance(st, ast.Raise):
+                return ('raise', norm(st.exc) if st.exc is not None else '')
+            if isinstance(st, ast.If):
+                r = run(st.body if truth(st.test, asg) else st.orelse, asg, env)
+                if r is not None:
+                    return r
+                continue
+            if isinstance(st, ast.Assign) and len(st.targets) == 1 and isinstance(st.targets[0], ast.Name):
+                env = dict(env)
+                env[st.targets[0].id] = value(st.value, asg, env)
+                continue
+            if isinstance(st, (ast.Pass,)) or (isinstance(st, ast.Expr) and isinstance(st.value, ast.Constant)):
+                continue
+            raise Undecidable('unsupported statement %s' % norm(st))
+        return None
+
+    def decide(asg):
+        r = run(unit.body() if callable(getattr(unit, 'body', None)) else unit.node.body, asg, {})
+        return r if r is not None else ('return', 'None')
+    return atoms, decide
+
+
+def choice_values(cfg, at, name, cond_template, entry_only=False):
+    """the values local ``name`` holds at node ``at`` when ``cond_template`` holds / does not
+    hold, whichever way the two-way choice is written (if/else, default-then-override,
+    override-then-default, conditional expression).  -> (holds, not_holds) as lists of
+    source texts, or None when no decision on that condition reaches ``at``"""
+    from .program import norm
+    from .pattern import matches
+    from .normal import _positive
+    # conditional-expression definitions
+    ds = cfg.reaching_defs(at, name, split=False)
+    if entry_only:
+        ds = [(dn, v) for dn, v in ds if at not in dn.loop_stack]
+    if len(ds) == 1 and isinstance(ds[0][1], ast.IfExp):
+        e = ds[0][1]
+        pol = polarity(e.test, cond_template)
+        if pol:
+            a, b = (e.body, e.orelse) if pol == 'true' else (e.orelse, e.body)
+            return [norm(a)], [norm(b)]
+    for t in cfg.nodes:
+        if t.kind != 'test' or (entry_only and at in t.loop_stack):
+            continue
+        pol = polarity(t.ast, cond_template)
+        if pol and cfg.find_path(t, {at}, labels=lambda lab: lab != 'exc') is not None:
+            other = 'false' if pol == 'true' else 'true'
+            return (sorted(norm(v) for v in values_on(cfg, at, name, t, pol, entry_only) if isinstance(v, ast.AST)),
+                    sorted(norm(v) for v in values_on(cfg, at, name, t, other, entry_only) if isinstance(v, ast.AST)))
+    return None
